@@ -16,7 +16,7 @@ from concurrent.futures import ThreadPoolExecutor
 VERIF = os.path.dirname(os.path.abspath(__file__))
 REPO = os.environ.get("VC_REPO", "/repo")
 SRC = os.path.join(REPO, "src")
-WORK = os.path.join(VERIF, ".work")
+WORK = os.environ.get("VC_WORK", os.path.join(VERIF, ".work"))
 GUARD = "LIBSCIENTIFIC_VERIF"
 NCPU = int(os.environ.get("VC_NCPU", str(os.cpu_count() or 4)))
 
@@ -422,6 +422,10 @@ def native_lib():
         return lib, None
 
 
+REPLAY_TIMEOUT = 10
+MAX_REPLAYS_PER_PROPERTY = 8
+
+
 def native_replay(prop, job, inputs, tag):
     """Compile the same harness natively against the real sources and run it on the recorded inputs."""
     wd = os.path.join(WORK, prop, "replay_" + re.sub(r"[^A-Za-z0-9_.@=-]", "_", job.name))
@@ -456,10 +460,10 @@ def native_replay(prop, job, inputs, tag):
                 break          # no callee was abstracted: the exact input is the only meaningful replay
             env = dict(env, VC_REPLAY_NICE="1")
         try:
-            p = subprocess.run([exe], cwd=wd, env=env, stdout=subprocess.PIPE, stderr=subprocess.STDOUT, timeout=30)
+            p = subprocess.run([exe], cwd=wd, env=env, stdout=subprocess.PIPE, stderr=subprocess.STDOUT, timeout=REPLAY_TIMEOUT)
             txt = p.stdout.decode(errors="replace"); rcode = p.returncode
         except subprocess.TimeoutExpired as e:
-            txt = (e.stdout or b"").decode(errors="replace") + "\n[native run did not terminate within 30 s]"; rcode = "timeout"
+            txt = (e.stdout or b"").decode(errors="replace") + "\n[native run did not terminate within the replay time limit]"; rcode = "timeout"
             oc = "native-timeout"
             continue
         if "VC_ASSUME_FALSE" in txt:
@@ -532,6 +536,7 @@ def check_property(prop, tier, only=None, verbose=False):
                 log("  [%s] %-40s %-8s obl=%d ok=%d t=%.1fs %s" % (prop, j.name, r["status"], r["obligations"],
                     r["discharged"], r["wall_s"], r["detail"][:300]))
     violations = []; known_hits = []; undecided = []
+    replay_budget = [MAX_REPLAYS_PER_PROPERTY]
     for j in jobs:
         r = results[j.name]
         if r["status"] == "infra" and j.loop_contracts and j.fallback:
@@ -547,16 +552,23 @@ def check_property(prop, tier, only=None, verbose=False):
                 r["detail"] = "loop-contract obligations failed (%s); bounded stand-in status=%s: proof broken, property undecided" % (
                     ", ".join(i["obligation"] for i in r["infra_failed"][:4]), rf["status"])
         if r["status"] == "failed":
+            reproduced_here = False
             for n, item in enumerate(r["failed"]):
                 k = match_known(known, prop, j, item)
                 if k:
                     known_hits.append((k, j, item)); continue
                 rep = None
-                if item["inputs"] and not j.static_only and not j.no_replay:
+                if item["inputs"] and not j.static_only and not j.no_replay and not reproduced_here and replay_budget[0] > 0:
+                    replay_budget[0] -= 1
                     try:
                         rep = native_replay(prop, j, item["inputs"], "f%d" % n)
                     except Exception as e:
                         rep = dict(outcome="replay-error", output=str(e))
+                    reproduced_here = rep.get("outcome") == "reproduced"
+                elif reproduced_here:
+                    rep = dict(outcome="not-run", output="another failing obligation of the same job was already reproduced natively")
+                elif item["inputs"] and replay_budget[0] <= 0:
+                    rep = dict(outcome="not-run", output="replay budget for this run exhausted (%d native replays)" % MAX_REPLAYS_PER_PROPERTY)
                 else:
                     rep = dict(outcome="no-input", output="static obligation or no input trace")
                 path = write_replay(prop, j, item, rep, r)
